@@ -1,5 +1,5 @@
 #!/bin/bash
-# usage: robust.sh <rename-locals|shift-lines|swap-operands> [props...]
+# usage: robust.sh <rename-locals|shift-lines|swap-operands|invert-if|hoist-init|wrap-else> [props...]
 # Applies a behaviour-preserving transformation to a scratch copy of /repo, checks that it still builds,
 # and runs the quick checks on it: every report is a false alarm of the checker.
 cd "$(dirname "$0")/.."
